@@ -291,40 +291,54 @@ macro_rules | `(tactic| ext_leaf) => `(tactic| first
   | exact Ext.modInstX _ _ | exact Ext.pushEvent _ | exact Ext.pushLeftEvent _ | exact Ext.setAction _ | exact Ext.freshUid
   | exact Ext.getAction? _ | exact Ext.getInstX? _ | exact Ext.getInstX _ | exact Ext.getInst? _ | exact Ext.getInst _)
 
-syntax "ext_auto" : tactic
-/-- a `have x := v; …` of the do-notation (join point or plain value) is moved into the context; for a join point its own
-    preservation is proved first, then its body is forgotten -/
-syntax "ext_let" : tactic
+/-- preservation facts about the join points of the do-notation (kept as structures so that the proof search only uses them
+    for join-point calls) -/
+structure JP1 (R : VM → VM → Prop) {A α : Type} (x : A → M α) : Prop where
+  app : ∀ a, Pres R (x a)
+structure JP2 (R : VM → VM → Prop) {A B α : Type} (x : A → B → M α) : Prop where
+  app : ∀ a b, Pres R (x a b)
+structure JP3 (R : VM → VM → Prop) {A B C α : Type} (x : A → B → C → M α) : Prop where
+  app : ∀ a b c, Pres R (x a b c)
+
+/-- syntax-directed proof search for goals `Pres R x`: `pres_search R po leaf` (relation, its `PreOrd` proof, tactic for the
+    leaves).  A `have x := v; …` of the do-notation (join point or plain value) is moved into the context; for a join point
+    its own preservation is proved first, then its body is forgotten. -/
+syntax "pres_search " term:max term:max tactic:max : tactic
+syntax "pres_let " term:max term:max tactic:max : tactic
 macro_rules
-  | `(tactic| ext_let) => `(tactic| (
+  | `(tactic| pres_let $R $po $leaf) => `(tactic| (
       extract_lets +onlyGivenNames x
       first
-        | (have hx : ∀ a b c, Pres Ext (x a b c) := by (intro a b c; dsimp only [x]; ext_auto)
+        | (have hx : JP1 $R x := ⟨by (intro a; dsimp only [x]; clear x; pres_search $R $po $leaf)⟩
            clear_value x)
-        | (have hx : ∀ a b, Pres Ext (x a b) := by (intro a b; dsimp only [x]; ext_auto)
+        | (have hx : JP2 $R x := ⟨by (intro a b; dsimp only [x]; clear x; pres_search $R $po $leaf)⟩
            clear_value x)
-        | (have hx : ∀ a, Pres Ext (x a) := by (intro a; dsimp only [x]; ext_auto)
+        | (have hx : JP3 $R x := ⟨by (intro a b c; dsimp only [x]; clear x; pres_search $R $po $leaf)⟩
            clear_value x)
         | clear_value x))
 macro_rules
-  | `(tactic| ext_auto) => `(tactic| repeat' (first
-      | assumption
-      | with_reducible ext_leaf
-      | with_reducible exact Pres.pure extPO _
-      | with_reducible exact Pres.throw extPO _
-      | with_reducible exact Pres.pyRaise extPO _ _
-      | with_reducible exact Pres.unsupported extPO _
-      | with_reducible exact Pres.get extPO
-      | with_reducible exact Pres.getRest extPO
-      | with_reducible exact Pres.getIx extPO
-      | with_reducible apply Pres.bind extPO
-      | with_reducible apply Pres.forIn extPO
-      | with_reducible apply Pres.attemptPy extPO
+  | `(tactic| pres_search $R $po $leaf) => `(tactic| repeat' (first
+      | with_reducible ($leaf:tactic)
+      | with_reducible exact Pres.pure $po _
+      | with_reducible exact Pres.throw $po _
+      | with_reducible exact Pres.pyRaise $po _ _
+      | with_reducible exact Pres.unsupported $po _
+      | with_reducible exact Pres.get $po
+      | with_reducible exact Pres.getRest $po
+      | with_reducible exact Pres.getIx $po
+      | with_reducible apply Pres.bind $po
+      | with_reducible apply Pres.forIn $po
+      | with_reducible apply Pres.attemptPy $po
       | intro _
-      | ext_let
+      | pres_let $R $po $leaf
+      | with_reducible (refine JP1.app ?_ _; assumption)
+      | with_reducible (refine JP2.app ?_ _ _; assumption)
+      | with_reducible (refine JP3.app ?_ _ _ _; assumption)
       | split
-      | with_reducible apply_assumption
       | dsimp only))
+
+syntax "ext_auto" : tactic
+macro_rules | `(tactic| ext_auto) => `(tactic| pres_search Ext extPO (ext_leaf))
 
 theorem Ext.modifyRest_outgoing (g : List Match.Ev → List Match.Ev) :
     Pres Ext (CoreVM.modifyRest fun r => { r with outgoing := g r.outgoing }) := by
@@ -372,13 +386,13 @@ theorem Ext.modifyRest_hx (g : Rest → List (Key × HeadX)) (c : Rest → List 
 theorem Ext.dropHeads (f : FUid) : Pres Ext (dropHeads f) := by
   unfold CoreVM.dropHeads
   have h1 := Ext.applyOp (.dropHeads f) (by intro _ h; cases h)
-  ext_auto
+  pres_search Ext extPO (first | ext_leaf | exact h1)
   all_goals exact Ext.modifyRest_hx _ _
 
 theorem Ext.setFlowStatus (f : FUid) (st : FlowStatus) : Pres Ext (setFlowStatus f st) := by
   unfold CoreVM.setFlowStatus
   have h1 := Ext.applyOp (.setFlowStatus f st) (by intro _ h; cases h)
-  ext_auto
+  pres_search Ext extPO (first | ext_leaf | exact h1)
 
 macro_rules | `(tactic| ext_leaf) => `(tactic| first | exact Ext.dropHeads _ | exact Ext.setFlowStatus _ _)
 
@@ -412,6 +426,111 @@ theorem Ext.abortFlow : ∀ (fuel : Nat) (f : FUid) (sc : List Score) (d : Bool)
   | fuel + 1, f, sc, d => by
     unfold CoreVM.abortFlow
     have ih := Ext.abortFlow fuel
-    ext_auto
+    pres_search Ext extPO (first | ext_leaf | exact ih _ _ _)
+
+/-! ### read-only computations (expression evaluation, event construction, matching score) -/
+
+/-- read-only computations: the final state IS the initial state (normal return or exception) -/
+def Same (s s' : VM) : Prop := ∃ n, s' = { s with r := { s.r with nextUid := n } }
+theorem samePO : PreOrd Same :=
+  ⟨fun s => ⟨s.r.nextUid, rfl⟩, fun h1 h2 => by
+    obtain ⟨n1, e1⟩ := h1
+    obtain ⟨n2, e2⟩ := h2
+    exact ⟨n2, by rw [e2, e1]⟩⟩
+
+/-- a relation that does not look at the uid counter holds along every read-only computation -/
+theorem Pres.of_same {R : VM → VM → Prop} (hu : ∀ s n, R s { s with r := { s.r with nextUid := n } }) {α : Type} {x : M α}
+    (h : Pres Same x) : Pres R x :=
+  ⟨fun s => by obtain ⟨n, e⟩ := h.app s; rw [e]; exact hu s n⟩
+
+theorem Pres.mapMLoop {R : VM → VM → Prop} (po : PreOrd R) {α β : Type} (f : α → M β) (hf : ∀ a, Pres R (f a)) :
+    ∀ (xs : List α) (acc : List β), Pres R (List.mapM.loop f xs acc)
+  | [], acc => by unfold List.mapM.loop; exact Pres.pure po _
+  | x :: xs, acc => by
+    unfold List.mapM.loop
+    exact Pres.bind po (hf x) (fun b => Pres.mapMLoop po f hf xs _)
+
+theorem Pres.mapM {R : VM → VM → Prop} (po : PreOrd R) {α β : Type} (f : α → M β) (hf : ∀ a, Pres R (f a)) (xs : List α) :
+    Pres R (List.mapM f xs) := Pres.mapMLoop po f hf xs []
+
+theorem Same.freshUid : Pres Same freshUid :=
+  ⟨fun s => ⟨s.r.nextUid + 1, rfl⟩⟩
+
+syntax "same_leaf" : tactic
+macro_rules | `(tactic| same_leaf) => `(tactic| exact Same.freshUid)
+syntax "same_auto" : tactic
+macro_rules | `(tactic| same_auto) => `(tactic| pres_search Same samePO (same_leaf))
+
+theorem Same.getInstX? (f : FUid) : Pres Same (getInstX? f) := by unfold CoreVM.getInstX?; same_auto
+theorem Same.getAction? (f : String) : Pres Same (getAction? f) := by unfold CoreVM.getAction?; same_auto
+theorem Same.getInst? (f : FUid) : Pres Same (getInst? f) := by unfold CoreVM.getInst?; same_auto
+macro_rules | `(tactic| same_leaf) => `(tactic| first | exact Same.getInstX? _ | exact Same.getAction? _ | exact Same.getInst? _)
+theorem Same.getInstX (f : FUid) : Pres Same (getInstX f) := by unfold CoreVM.getInstX; same_auto
+theorem Same.getInst (f : FUid) : Pres Same (getInst f) := by unfold CoreVM.getInst; same_auto
+macro_rules | `(tactic| same_leaf) => `(tactic| first | exact Same.getInstX _ | exact Same.getInst _)
+theorem Same.ctxHolder (f : FUid) : Pres Same (ctxHolder f) := by unfold CoreVM.ctxHolder; same_auto
+macro_rules | `(tactic| same_leaf) => `(tactic| exact Same.ctxHolder _)
+theorem Same.getCtx (f : FUid) : Pres Same (getCtx f) := by unfold CoreVM.getCtx; same_auto
+macro_rules | `(tactic| same_leaf) => `(tactic| exact Same.getCtx _)
+
+theorem Same.valueErr {α : Type} (m : String) : Pres Same (valueErr m : M α) := Pres.pyRaise samePO _ _
+macro_rules | `(tactic| same_leaf) => `(tactic| exact Same.valueErr _)
+theorem Same.lookupVar (c : EvalCtx) (n : String) : Pres Same (lookupVar c n) := by
+  unfold CoreVM.lookupVar; same_auto
+theorem Same.attrOf (v : Val) (a : String) (l : Bool) : Pres Same (attrOf v a l) := by
+  unfold CoreVM.attrOf CoreVM.valueErr; same_auto
+macro_rules | `(tactic| same_leaf) => `(tactic| first | exact Same.lookupVar _ _ | exact Same.attrOf _ _ _)
+
+theorem Same.eval : ∀ fuel : Nat, (∀ c e, Pres Same (evalExpr c fuel e)) ∧ (∀ c e, Pres Same (evalBase c fuel e))
+  | 0 => by constructor <;> intro c e <;> (first | unfold evalExpr | unfold evalBase) <;> exact Pres.throw samePO _
+  | fuel + 1 => by
+    obtain ⟨ih1, ih2⟩ := Same.eval fuel
+    constructor
+    · intro c e
+      unfold evalExpr
+      pres_search Same samePO (first | same_leaf | exact ih1 _ _ | exact ih2 _ _ | apply Pres.tryCatch samePO | apply Pres.mapM samePO)
+    · intro c e
+      unfold evalBase
+      pres_search Same samePO (first | same_leaf | exact ih1 _ _ | exact ih2 _ _ | apply Pres.tryCatch samePO | apply Pres.mapM samePO)
+
+macro_rules | `(tactic| same_leaf) => `(tactic| first | exact (Same.eval _).1 _ _ | exact (Same.eval _).2 _ _)
+
+theorem Same.evalIn (f : FUid) (e : Expr) : Pres Same (evalIn f e) := by unfold CoreVM.evalIn; same_auto
+theorem Same.evalEmpty (e : Expr) : Pres Same (evalEmpty e) := by unfold CoreVM.evalEmpty; same_auto
+macro_rules | `(tactic| same_leaf) => `(tactic| first | exact Same.evalIn _ _ | exact Same.evalEmpty _)
+theorem Same.evalArgs (f : FUid) (a) : Pres Same (evalArgs f a) := by unfold CoreVM.evalArgs; same_auto
+macro_rules | `(tactic| same_leaf) => `(tactic| exact Same.evalArgs _ _)
+theorem Same.getCfg (f : String) : Pres Same (getCfg f) := by unfold CoreVM.getCfg; same_auto
+macro_rules | `(tactic| same_leaf) => `(tactic| exact Same.getCfg _)
+theorem Same.cfgOfInst (f : FUid) : Pres Same (cfgOfInst f) := by unfold CoreVM.cfgOfInst; same_auto
+theorem Same.getHead? (k : Key) : Pres Same (getHead? k) := by unfold CoreVM.getHead?; same_auto
+theorem Same.getHeadX (k : Key) : Pres Same (getHeadX k) := by unfold CoreVM.getHeadX; same_auto
+macro_rules | `(tactic| same_leaf) => `(tactic| first | exact Same.cfgOfInst _ | exact Same.getHead? _ | exact Same.getHeadX _)
+theorem Same.headScores (k : Key) : Pres Same (headScores k) := by unfold CoreVM.headScores; same_auto
+theorem Same.labelPos (c : FlowCfg) (l : String) : Pres Same (labelPos c l) := by unfold CoreVM.labelPos; same_auto
+theorem Same.flowObjOf (f : FUid) : Pres Same (flowObjOf f) := by unfold CoreVM.flowObjOf; same_auto
+macro_rules | `(tactic| same_leaf) => `(tactic| first | exact Same.headScores _ | exact Same.labelPos _ _ | exact Same.flowObjOf _)
+theorem Same.instanceArguments (c : FlowCfg) (a) : Pres Same (instanceArguments c a) := by
+  unfold CoreVM.instanceArguments; same_auto
+macro_rules | `(tactic| same_leaf) => `(tactic| exact Same.instanceArguments _ _)
+theorem Same.flowStartEvent (o : FlowObj) (a) : Pres Same (flowStartEvent o a) := by unfold CoreVM.flowStartEvent; same_auto
+macro_rules | `(tactic| same_leaf) => `(tactic| exact Same.flowStartEvent _ _)
+theorem Same.flowGetEvent (o : FlowObj) (n a) : Pres Same (flowGetEvent o n a) := by unfold CoreVM.flowGetEvent; same_auto
+macro_rules | `(tactic| same_leaf) => `(tactic| exact Same.flowGetEvent _ _ _)
+theorem Same.actionGetEvent (o : Action) (n a) : Pres Same (actionGetEvent o n a) := by unfold CoreVM.actionGetEvent; same_auto
+macro_rules | `(tactic| same_leaf) => `(tactic| exact Same.actionGetEvent _ _ _)
+theorem Same.tempAction (n a) : Pres Same (tempAction n a) := by unfold CoreVM.tempAction; same_auto
+macro_rules | `(tactic| same_leaf) => `(tactic| exact Same.tempAction _ _)
+theorem Same.tempFlowObj (n) : Pres Same (tempFlowObj n) := by unfold CoreVM.tempFlowObj; same_auto
+macro_rules | `(tactic| same_leaf) => `(tactic| exact Same.tempFlowObj _)
+theorem Same.resolveRef (f s v) : Pres Same (resolveRef f s v) := by unfold CoreVM.resolveRef; same_auto
+macro_rules | `(tactic| same_leaf) => `(tactic| exact Same.resolveRef _ _ _)
+theorem Same.getEventName (f : FUid) (sp : Spec) : Pres Same (getEventName f sp) := by unfold CoreVM.getEventName; same_auto
+theorem Same.getEvent (f : FUid) (sp : Spec) (b : Bool) : Pres Same (getEvent f sp b) := by unfold CoreVM.getEvent; same_auto
+macro_rules | `(tactic| same_leaf) => `(tactic| first | exact Same.getEventName _ _ | exact Same.getEvent _ _ _)
+theorem Same.eventMatchingScore (f : FUid) (sp : Spec) (e : Event) : Pres Same (eventMatchingScore f sp e) := by
+  unfold CoreVM.eventMatchingScore; same_auto
+theorem Same.nameFor (f : FUid) (p : Nat) (h : HeadStatus) : Pres Same (nameFor f p h) := by unfold CoreVM.nameFor; same_auto
+macro_rules | `(tactic| same_leaf) => `(tactic| first | exact Same.eventMatchingScore _ _ _ | exact Same.nameFor _ _ _)
 
 end NemoVerif.CoreVM
